@@ -67,3 +67,89 @@ def field_ops_only(cls):
     body = [ln for ln in code.split('\n') if 'dy_ptr[' not in ln and 'y_ptr[' not in ln]
     txt = '\n'.join(body)
     return not re.search(r'\bconj|\babs\(|fabs|\.real|\.imag|[<>]=?\s|==', txt)
+
+
+# ------------------------------------------------------------------------------------------------ formal-indeterminate mode: packing obligation
+def _eval_poly(t, env):
+    """evaluate a z3 real polynomial term (+, *, -, constants, variables) with Q values for the variables"""
+    if isinstance(t, (int, Fr)):
+        return Q(Fr(t))
+    if z3.is_rational_value(t) or z3.is_int_value(t):
+        return Q(Fr(t.numerator_as_long(), t.denominator_as_long())) if z3.is_rational_value(t) else Q(Fr(t.as_long()))
+    if z3.is_const(t):
+        return env[t.decl().name()]
+    k = t.decl().kind()
+    ch = [_eval_poly(c, env) for c in t.children()]
+    if k == z3.Z3_OP_ADD:
+        r = ch[0]
+        for c in ch[1:]:
+            r = r + c
+        return r
+    if k == z3.Z3_OP_MUL:
+        r = ch[0]
+        for c in ch[1:]:
+            r = r * c
+        return r
+    if k == z3.Z3_OP_SUB:
+        r = ch[0]
+        for c in ch[1:]:
+            r = r - c
+        return r
+    if k == z3.Z3_OP_UMINUS:
+        return -ch[0]
+    if k == z3.Z3_OP_TO_REAL:
+        return ch[0]
+    raise ValueError('not a polynomial term: %s' % t.decl().name())
+
+
+def complexify(q, env):
+    """value of the formal-mode result q (a real rational function of the formal indeterminates) when the indeterminates take the complex Q values of env"""
+    q = Q.of(q)
+    num = _eval_poly(q.re, env)
+    for key, (term, m) in q.den.items():
+        d = _eval_poly(term, env)
+        for _ in range(m):
+            num = num / d
+    return num
+
+
+def job_packing(cls, l):
+    """Justifies the formal-indeterminate encoding of `cls`.diffeq beyond the syntactic field-operations test: the REAL unpacking of y_ptr and packing of dy_ptr
+    (re/im interleaved) executed with complex symbolic states equals the complexification of the formal-mode result, component by component."""
+    from symx.solve import Obligation, discharge, reach_twin
+    n = NUM_Y[cls]
+    names = ['y%d' % i for i in range(n)] + ['mu', 'K']
+    formal_syms = {k: Q.sym('f_' + k) for k in names}
+    r, rho, g, w, G4pi = [Q.sym(k) for k in ('r', 'rho', 'g', 'w', 'G4pi')]
+    F = ode_rhs(cls, [formal_syms['y%d' % i] for i in range(n)], r, rho, g, formal_syms['mu'], formal_syms['K'], w, G4pi, l, formal=True)
+    cvals = {k: Q.csym('c_' + k) for k in names}
+    C = ode_rhs(cls, [cvals['y%d' % i] for i in range(n)], r, rho, g, cvals['mu'], cvals['K'], w, G4pi, l, formal=False)
+    env = {'f_' + k: cvals[k] for k in names}
+    env.update({k: Q.sym(k) for k in ('r', 'rho', 'g', 'w', 'G4pi')})
+    pos = [r.re > 0, rho.re > 0, g.re > 0, G4pi.re > 0]
+    results = []
+    for i in range(n):
+        want = complexify(F[i], env)
+
+        def rp(md, i=i):
+            # float replay on the transliterated current source: complex state through the real pack/unpack vs the same formula evaluated with python complex numbers
+            import random
+            rnd = random.Random(7 + i)
+            cv = lambda: complex(rnd.uniform(0.5, 2.0), rnd.uniform(0.2, 1.5))
+            ys = [cv() for _ in range(n)]
+            muv, Kv = cv(), cv()
+            rv, rhov, gv, wv, Gv = 1.3, 2.1, 0.7, 0.9, 1.7
+            got = ode_rhs(cls, ys, rv, rhov, gv, muv, Kv, wv, Gv, l, float_mode=True)
+            # reference: the same source with the state given one component at a time through linearity is not available; use the exact symbolic result
+            envf = {'f_y%d' % j: Q(Fr(ys[j].real).limit_denominator(10 ** 9), Fr(ys[j].imag).limit_denominator(10 ** 9)) for j in range(n)}
+            envf['f_mu'] = Q(Fr(muv.real).limit_denominator(10 ** 9), Fr(muv.imag).limit_denominator(10 ** 9))
+            envf['f_K'] = Q(Fr(Kv.real).limit_denominator(10 ** 9), Fr(Kv.imag).limit_denominator(10 ** 9))
+            for k_, v_ in (('r', rv), ('rho', rhov), ('g', gv), ('w', wv), ('G4pi', Gv)):
+                envf[k_] = Q(Fr(v_).limit_denominator(10 ** 9))
+            ref = complexify(F[i], envf)
+            refc = complex(float(ref.re), float(ref.im))
+            return abs(got[i] - refc) > 1e-7 * (abs(refc) + 1e-12), '%s.diffeq (transliterated current source, float mode) dy[%d] = %r for a complex state; formula of the field-operations result = %r' % (cls, i, got[i], refc)
+        results.append(discharge(Obligation('%s l=%d: dy_ptr[%d], dy_ptr[%d] (real pack/unpack, complex state) == complexification of the formal-indeterminate result dy%d' % (cls, l, 2 * i, 2 * i + 1, i + 1),
+                                            eq_goal(C[i], want), pos, replay=rp, key='packing:%s:%d' % (cls, i))))
+    results.append(reach_twin('packing %s' % cls, pos))
+    return {'results': results, 'encoded': loader.ENCODED, 'axioms': CTX.axiom_notes, 'label': 'packing %s l=%d' % (cls, l)}
